@@ -148,6 +148,21 @@ theorem findpos_after_element_witness :
      | _ => false) = true := by
   decide +kernel
 
+/-- `c19-findpos-after-element`, the DIVERGENCE it causes: in `<r><p><i></i>xyz</p></r>` d1 runs `Edit(3,5)` (delete "xy":
+    index 3 is right after `</i>`, `FindPos` gives (text "xyz", offset 0)) while d2 inserts "Q" between x and y. On d1, where
+    "xyz" is one piece, the anchor means "after xyz" and nothing is deleted; on d2, where the insert has split the text, the
+    floor of the same anchor is the piece "x": the same operation deletes "y". Both have applied both changes:
+    d1 = `<r><p><i></i>xQyz</p></r>`, d2 = `<r><p><i></i>xQz</p></r>`
+    (corpus/C19/tree-findpos-after-element-diverge.trace, corpus/C01/tree-findpos-after-element-diverge.repro.go.txt) -/
+theorem findpos_after_element_diverge_witness :
+    (match runCase ⟨0, [⟨0, [114], [], []⟩, ⟨1, [112], [], []⟩, ⟨2, [105], [], []⟩, ⟨2, textType, [120, 121, 122], []⟩],
+        .edit 3 5 [] 0, .edit 4 4 [[⟨0, textType, [81], []⟩]] 0⟩ with
+     | .ok o => o.d1.root.toXMLCodes == "<r><p><i></i>xQyz</p></r>".toList.map Char.toNat &&
+                o.d2.root.toXMLCodes == "<r><p><i></i>xQz</p></r>".toList.map Char.toNat &&
+                xmlEq o.d1.clone o.d1.root && xmlEq o.d2.clone o.d2.root
+     | .error _ => false) = true := by
+  decide +kernel
+
 /-- `c19-path-tombstone`: after deleting 'a' from `<r><p>ab</p></r>`, index 1 converts to a path that
     converts back to index 2 (`TreePosToPath` indexes the tombstone-filtered child list with the raw
     child offset) -/
